@@ -183,3 +183,34 @@ def cache_switch_value_for(db: ProgramDB, cls: ClassInfo, method_name: str) -> O
         if isinstance(v, ast.Call):
             return "switch"
     return None
+
+
+
+def alias_closure(fn: FuncInfo, seeds: Set[str]) -> Set[str]:
+    """Local names that stand for one of the seed expressions (given as unparsed text, e.g. 'self.keys'): assigned from a seed
+    or from another alias, directly.  Independent of how the locals are called."""
+    names: Set[str] = set()
+    defs = local_defs(fn)
+    changed = True
+    while changed:
+        changed = False
+        for n, vals in defs.items():
+            if n in names:
+                continue
+            for v in vals:
+                if isinstance(v, ast.AST) and (unparse(v) in seeds or (isinstance(v, ast.Name) and v.id in names)):
+                    names.add(n)
+                    changed = True
+    return names
+
+
+def is_len_minus_one(fn: FuncInfo, e: ast.AST, of: Set[str]) -> bool:
+    """e is `len(X) - 1` for an X in `of` (texts / alias names), or a local assigned exactly that."""
+    def direct(x):
+        return isinstance(x, ast.BinOp) and isinstance(x.op, ast.Sub) and isinstance(x.right, ast.Constant) and x.right.value == 1 \
+            and isinstance(x.left, ast.Call) and dotted(x.left.func) == "len" and x.left.args and unparse(x.left.args[0]) in of
+    if direct(e):
+        return True
+    if isinstance(e, ast.Name):
+        return any(isinstance(d, ast.AST) and direct(d) for d in local_defs(fn).get(e.id, []))
+    return False
